@@ -276,7 +276,9 @@ func c09Run(w0 *kernel.Worker, j *c09Job, rep *kernel.Report) (*Fail, error) {
 		{"", func(l map[string]string) map[string]string { return map[string]string{} }},
 		{" by (job)", func(l map[string]string) map[string]string { return map[string]string{"job": l["job"]} }},
 		{" by (inst)", func(l map[string]string) map[string]string { return map[string]string{"inst": l["inst"]} }},
-		{" by (job, inst)", func(l map[string]string) map[string]string { return map[string]string{"job": l["job"], "inst": l["inst"]} }},
+		{" by (job, inst)", func(l map[string]string) map[string]string {
+			return map[string]string{"job": l["job"], "inst": l["inst"]}
+		}},
 		{" without (inst)", func(l map[string]string) map[string]string { return map[string]string{"job": l["job"]} }},
 		{" without (job, inst)", func(l map[string]string) map[string]string { return map[string]string{} }},
 	}
